@@ -22,7 +22,7 @@ TagBytes(kind) == CASE kind = "ETHERNET_II" -> {12, 13} [] kind \in {"DOT1Q", "D
                     [] kind = "IPSEC_AH" -> {0} [] OTHER -> {}
 \* lengths, checksums: always derived
 AlwaysDerived(kind) == CASE kind = "IP" -> {2, 3, 10, 11} [] kind = "IPv6" -> {4, 5} [] kind = "TCP" -> {16, 17}
-                         [] kind = "UDP" -> {4, 5, 6, 7} [] kind = "ICMP" -> {2, 3, 5} [] kind = "ICMPv6" -> {2, 3, 4}
+                         [] kind = "UDP" -> {4, 5, 6, 7} [] kind = "ICMP" -> {2, 3} [] kind = "ICMPv6" -> {2, 3}
                          [] kind = "IPSEC_AH" -> {1} [] kind = "PPPOE" -> {4, 5} [] kind = "IEEE802_3" -> {12, 13}
                          [] kind \in {"RADIOTAP", "RSNEAPOL", "RC4EAPOL"} -> {2, 3} [] OTHER -> {}
 \* positions (relative to the IPv6 header) of the next-header bytes inside the extension-header chain
@@ -32,8 +32,13 @@ ExtTagPos(bs, base, rel, hlen, fuel) == IF rel + 2 > hlen \/ fuel = 0 THEN {} EL
 \* headers that follow them ("options (order, codes and bytes)") and must survive; only the LAST one is the tag that
 \* names the upper layer.
 MaxOf(S) == CHOOSE x \in S : \A y \in S : y <= x
+\* the RFC 4884 length attribute is a derived length only in the messages that have one: ICMP Destination Unreachable (3), Time
+\* Exceeded (11), Parameter Problem (12) - 6th octet; ICMPv6 Destination Unreachable (1), Time Exceeded (3) - 5th octet.  In every
+\* other message those octets belong to fields of their own (echo identifier, Parameter Problem pointer, ...)
+Rfc4884Len(bs, base, kind) == IF kind = "ICMP" /\ B(bs, base) \in {3, 11, 12} THEN {5}
+                              ELSE IF kind = "ICMPv6" /\ B(bs, base) \in {1, 3} THEN {4} ELSE {}
 Derived(bs, base, kind, hlen, nextKind) ==
-    AlwaysDerived(kind)
+    AlwaysDerived(kind) \cup Rfc4884Len(bs, base, kind)
     \cup (IF nextKind = "RAW" THEN {}
           ELSE IF kind = "IPv6" /\ hlen > 40 THEN {MaxOf(ExtTagPos(bs, base, 40, hlen, 10) \cup {6})}
           ELSE TagBytes(kind))
@@ -46,8 +51,10 @@ NextKind(ls, i) == IF i < Len(ls) THEN ls[i + 1][1] ELSE "none"
 \* "alignment padding ... may differ": when p had to be padded to the Ethernet minimum (a trailer on its first layer)
 \* and its innermost layer is an opaque payload, the padding libtins added is indistinguishable from payload when y is
 \* parsed again -- q's payload may then be p's payload followed by those zero bytes (and nothing else)
-PaddedTail(lp, lq, i) == /\ i = Len(lp) /\ lp[i][1] = "RAW" /\ lp[1][3] > 0
-                         /\ lq[i][2] >= lp[i][2] /\ lq[i][2] - lp[i][2] <= lp[1][3]
+\* (the padding layer is the outermost Ethernet header, or an Ethernet frame carried inside a tunnel such as VXLAN)
+Trailers(lp) == LET F[j \in 0..Len(lp)] == IF j = 0 THEN 0 ELSE F[j - 1] + lp[j][3] IN F[Len(lp)]
+PaddedTail(lp, lq, i) == /\ i = Len(lp) /\ lp[i][1] = "RAW" /\ Trailers(lp) > 0
+                         /\ lq[i][2] >= lp[i][2] /\ lq[i][2] - lp[i][2] <= Trailers(lp)
 SameStack(lp, lq) == /\ Len(lp) = Len(lq)
                      /\ \A i \in 1..Len(lp) : lp[i][1] = lq[i][1] /\ (lp[i][2] = lq[i][2] \/ PaddedTail(lp, lq, i))
 LayerPreserved(b, y, lp, lq, i) ==
